@@ -1,6 +1,6 @@
 (* C12 — async producer: the invariant holds in every reachable state; consequences. *)
 From Coq Require Import List Arith Bool Lia.
-From SV Require Import C12.Lts C12.LtsProofs C12.Tac C12.Prod C12.ProdProofs C12.ProdInvA C12.ProdInvB C12.ProdInvC C12.ProdInvD C12.ProdInvE C12.ProdInvF C12.ProdInvG C12.ProdInvH C12.ProdInvI C12.ProdInvJ.
+From SV Require Import C12.Lts C12.LtsProofs C12.Tac C12.Prod C12.ProdProofs C12.ProdInv_01 C12.ProdInv_02 C12.ProdInv_03 C12.ProdInv_04 C12.ProdInv_05 C12.ProdInv_06 C12.ProdInv_07 C12.ProdInv_08 C12.ProdInv_09 C12.ProdInv_10 C12.ProdInv_11 C12.ProdInv_12 C12.ProdInv_13.
 Import ListNotations.
 
 Module ProdS.
